@@ -4,6 +4,9 @@
 mod alloc;
 mod c01;
 mod c07;
+mod c08;
+mod c13;
+mod c14;
 mod conv;
 mod gen;
 mod real;
@@ -27,6 +30,9 @@ fn main() {
     match args[1].as_str() {
         "C01" => c01::run(tier),
         "C07" => c07::run(tier),
+        "C13" => c13::run(tier),
+        "C08" => c08::run(tier),
+        "C14" => c14::run(tier),
         other => mcx::machinery(format!("unknown property {other}")),
     }
 }
@@ -39,6 +45,9 @@ fn replay(path: &str) -> ! {
     match prop {
         "C01" => c01::replay(w),
         "C07" => c07::replay(w, "C07"),
+        "C13" => c13::replay(w),
+        "C08" => c08::replay(w),
+        "C14" => c14::replay(w),
         other => mcx::machinery(format!("no replay for property {other}")),
     }
 }
